@@ -492,6 +492,14 @@ class Backends(Harness):
         case = [tuple(tuple(p) for p in c) if isinstance(c, list) and c and isinstance(c[0], list) else (tuple(c) if isinstance(c, list) and i == 4 else c) for i, c in enumerate(case)]
         shape = tuple(case[4])
         vals = {}
+        if not rep.get("model"):
+            # a difference in shape does not depend on the values: any will do
+            shapes = {"a0": (2,), "a1": (2, 2)} if case[1] == "stack-mixed" else {f"a{i}": shape for i in range(case[3])}
+            for n, sh in shapes.items():
+                a = np.empty(int(np.prod(sh)), dtype=object)
+                for i in range(a.size):
+                    a[i] = Fraction(i + 1 + 10 * int(n[1:]))
+                vals[n] = a.reshape(sh)
         for n, flat in (rep.get("model") or {}).items():
             a = np.empty(len(flat), dtype=object)
             for i, x in enumerate(flat):
